@@ -685,15 +685,46 @@ class PteraTransformer(NodeTransformer):
         if len(targets) > 1:
             return _decompose(targets, lambda value, i: value)
 
-        elif isinstance(targets[0], ast.Tuple):
-            return _decompose(
-                targets[0].elts,
-                lambda value, i: ast.Subscript(
-                    value=value,
-                    slice=ast.Index(value=ast.Constant(i)),
-                    ctx=ast.Load(),
-                ),
-            )
+        elif isinstance(targets[0], (ast.Tuple, ast.List)):
+            # Let Python unpack the value into temporaries that mirror the
+            # shape of the target (works for any iterable, checks lengths,
+            # supports starred and nested targets), then assign each leaf.
+            leaves = []
+
+            def _mirror(tgt):
+                if isinstance(tgt, (ast.Tuple, ast.List)):
+                    return type(tgt)(
+                        elts=[_mirror(elt) for elt in tgt.elts],
+                        ctx=ast.Store(),
+                    )
+                elif isinstance(tgt, ast.Starred):
+                    return ast.Starred(
+                        value=_mirror(tgt.value), ctx=ast.Store()
+                    )
+                else:
+                    tmp = _gensym()
+                    leaves.append((tgt, tmp))
+                    return ast.Name(id=tmp, ctx=ast.Store())
+
+            accum = [
+                ast.copy_location(
+                    ast.Assign(
+                        targets=[_mirror(targets[0])], value=node.value
+                    ),
+                    node,
+                )
+            ]
+            for tgt, tmp in leaves:
+                accum += self.visit_Assign(
+                    ast.copy_location(
+                        ast.Assign(
+                            targets=[tgt],
+                            value=ast.Name(id=tmp, ctx=ast.Load()),
+                        ),
+                        node,
+                    )
+                )
+            return accum
         else:
             return self.make_interaction(
                 targets[0], None, node.value, orig=node
